@@ -796,6 +796,26 @@ Proof.
       cbn [firstn]. right. now left.
 Qed.
 
+(* the region put in front of the slice (repair of C06-K4): nothing when no region crosses the origin ... *)
+Lemma link_first_simple regs from : (forall r, In r regs -> simple_area r) -> link_first regs from = [].
+Proof.
+  intros Hsim. destruct regs as [|r0 rest]; [reflexivity|]. unfold link_first.
+  destruct (Hsim r0 (or_introl eq_refl)) as (p & Ep & _). rewrite Ep. cbn [bridges is_compound].
+  now rewrite andb_false_r.
+Qed.
+
+(* ... and when region 0 crosses the origin it is always among the candidates, whatever the other regions and the gene *)
+Lemma link_first_complete regs g r0 : nth_error regs 0 = Some r0 -> bridges (aloc r0) = true ->
+  let left := bisect (fun r => region_lt_cds r g) regs 0 in
+  let right := bisect (fun r => negb (cds_lt_region g r)) regs left in
+  In r0 (link_first regs (left - 1) ++ firstn (S right - (left - 1)) (skipn (left - 1) regs)).
+Proof.
+  intros Hn Hb left right. destruct regs as [|x rest]; [discriminate|]. cbn in Hn. injection Hn as ->.
+  apply in_or_app. destruct (left - 1)%nat as [|f] eqn:Ef.
+  - right. cbn [skipn]. rewrite Nat.sub_0_r. cbn [firstn]. now left.
+  - left. unfold link_first. cbn [Nat.ltb Nat.leb andb]. rewrite Hb. now left.
+Qed.
+
 (* ================================================================== histories ================== *)
 (* ------------------------------------------------------------------ region list: insertion, uniqueness *)
 
@@ -1818,6 +1838,8 @@ Proof.
   rewrite Eins in H. set (G := A ++ g :: B) in *.
   unfold link_cds in H. cbn [sgenes sareas sregs slink] in H.
   fold (regs_of st) in H.
+  (* no region of such a record crosses the origin: nothing is put in front of the slice *)
+  rewrite (link_first_simple (regs_of st) _ (regs_simple st I)) in H. cbn [app] in H.
   set (left := bisect (fun r => region_lt_cds r g) (regs_of st) 0) in *.
   set (right := bisect (fun r => negb (cds_lt_region g r)) (regs_of st) left) in *.
   set (window := firstn (S right - (left - 1)) (skipn (left - 1) (regs_of st))) in *.
